@@ -5,6 +5,13 @@ namespace Gd.Run
 open Gd Gd.Mindustry Gd.Mindustry.Spec
 
 def gMdStr (maxLen : Nat) : G Bytes := do
+  -- now and then exactly the longest string the length byte can announce (255 bytes) or just below, ASCII or ending in a
+  -- multi-byte scalar
+  let edge ← G.chance 1 10
+  if edge then
+    let n ← G.oneOf [255, 254, 255, 253]
+    let tail ← G.oneOf [([] : Bytes), [0xC3, 0xA9], [0xE2, 0x82, 0xAC]]
+    return List.replicate (n - tail.length) 0x61 ++ tail
   -- mostly within the game's own limits, sometimes up to the format's 255
   let big ← G.chance 1 12
   let t ← G.text [0] (if big then 255 else maxLen)
